@@ -139,7 +139,9 @@ class ExpressionParser:
     def tokenize(self, input_text: str) -> List[Token]:
         if input_text not in self._tokens_cache:
             self._tokens_cache[input_text] = self.tokenizer.tokenize(input_text)
-        return self._tokens_cache[input_text][:]
+        # Tokens are mutable objects: hand out copies of them, not just of the list, so
+        # that a caller editing a token cannot change what later calls see
+        return [Token(t.value, t.type) for t in self._tokens_cache[input_text]]
 
     def parse(self, input_text: str) -> MathExpression:
         """Parse a string representation of an expression into a tree
